@@ -69,7 +69,7 @@ class PBKDF2SHAHandler(PasswordHasher):
         hash_info = inspect_pbkdf2_hash(hash=hash, cls=self.HASH_INFO_CLS)
         if not hash_info:
             return False
-        if not 1 <= hash_info.rounds <= 0xFFFFFFFF:
+        if not 1 <= hash_info.rounds <= 0x7FFFFFFF:
             # not an iteration count PBKDF2 can run (larger values overflow in hashlib)
             return False
         try:
